@@ -639,7 +639,7 @@ Theorem C03_atomic_new_goodS :
        (forall t : nat, t < length cs -> t < length (clk cs t)) ->
        (forall u t : nat,
         u < length cs -> t < length cs -> vv_get (clk cs u) t <= vv_get (clk cs t) t) ->
-       (forall t : nat, t < length cs -> vle c0 (clk cs t)) -> GoodS (s_new me c0 v0, cs).
+       GoodS (s_new me c0 v0, cs).
 Proof. exact atomic_new_goodS. Qed.
 Print Assumptions C03_atomic_new_goodS.
 
@@ -684,18 +684,124 @@ Theorem C03_rmw_call_is_step :
 Proof. exact rmw_call_is_step. Qed.
 Print Assumptions C03_rmw_call_is_step.
 
-(* one micro-operation end to end: exec_micro on MStorePost is the machine's store step on (atomic a, the threads' clocks) (for t_rel = vv_new, ring not full) *)
+(* one micro-operation end to end: exec_micro on MStorePost is the machine's store step on (atomic a, the threads' clocks) (for t_rel <= t_caus, ring not full) *)
 Theorem C03_MStorePost_is_step :
   forall (e : exec) (me a : nat) (v : N) (o : ord) (e' : exec) (t0 : thread)
          (s : atomic_state),
        get_thread e me = Some t0 ->
-       t_rel t0 = vv_new ->
        get_atomic e a = Some s ->
        at_cnt s < MAX_ATOMIC_HISTORY ->
+       vle (t_rel t0) (t_caus t0) ->
        exec_micro e me (MStorePost a v o) = MOk e' ->
        exists s' : atomic_state,
          get_atomic e' a = Some s' /\
-         mstep RModel (s, clocks e) me (XStore v o) = Some (s', clocks e').
+         bstep (s, clocks e) me (BStoreR (t_rel t0) v o) = Some (s', clocks e').
 Proof. exact MStorePost_is_step. Qed.
 Print Assumptions C03_MStorePost_is_step.
+
+(* likewise MLoadPost is a load step (hypothesis: the replayed index is a candidate) *)
+Theorem C03_MLoadPost_is_step :
+  forall (e : exec) (me a : nat) (o : ord) (aw : option N) (e' : exec) 
+         (t0 : thread) (s : atomic_state),
+       get_thread e me = Some t0 ->
+       get_atomic e a = Some s ->
+       GoodS (s, clocks e) ->
+       (forall (e2 : exec) (idx : nat) (l : list nat),
+        choose_store (causality_inc e me)
+          (match_load_to_stores s me (vv_inc (t_caus t0) me) (t_last_yield t0) o) = (
+        e2, inl idx) ->
+        match_load_to_stores s me (vv_inc (t_caus t0) me) (t_last_yield t0) o = Some l -> In idx l) ->
+       exec_micro e me (MLoadPost a o aw) = MOk e' ->
+       exists (s' : atomic_state) (idx : nat),
+         get_atomic e' a = Some s' /\
+         bstep (s, clocks e) me (BOp (XLoad idx o)) = Some (s', clocks e').
+Proof. exact MLoadPost_is_step. Qed.
+Print Assumptions C03_MLoadPost_is_step.
+
+(* the load of fetch_update *)
+Theorem C03_MFuLoadPost_is_step :
+  forall (e : exec) (me a : nat) (f : rmwop) (v : N) (so fo : ord) 
+         (e' : exec) (t0 : thread) (s : atomic_state),
+       get_thread e me = Some t0 ->
+       get_atomic e a = Some s ->
+       GoodS (s, clocks e) ->
+       (forall (e2 : exec) (idx : nat) (l : list nat),
+        choose_store (causality_inc e me)
+          (match_load_to_stores s me (vv_inc (t_caus t0) me) (t_last_yield t0) fo) = (
+        e2, inl idx) ->
+        match_load_to_stores s me (vv_inc (t_caus t0) me) (t_last_yield t0) fo = Some l -> In idx l) ->
+       exec_micro e me (MFuLoadPost a f v so fo) = MOk e' ->
+       exists (s' : atomic_state) (idx : nat),
+         get_atomic e' a = Some s' /\
+         bstep (s, clocks e) me (BOp (XLoad idx fo)) = Some (s', clocks e').
+Proof. exact MFuLoadPost_is_step. Qed.
+Print Assumptions C03_MFuLoadPost_is_step.
+
+(* MRmwPost is an RMW step with the thread's released clock *)
+Theorem C03_MRmwPost_is_step :
+  forall (e : exec) (me a : nat) (k : rmwkind) (so fo : ord) (e' : exec) 
+         (t0 : thread) (s : atomic_state),
+       get_thread e me = Some t0 ->
+       get_atomic e a = Some s ->
+       at_cnt s < MAX_ATOMIC_HISTORY ->
+       vle (t_rel t0) (t_caus t0) ->
+       (forall (e2 : exec) (idx : nat) (l : list nat),
+        choose_store (causality_inc e me) (match_rmw_to_stores s) = (e2, inl idx) ->
+        match_rmw_to_stores s = Some l -> In idx l) ->
+       match_rmw_to_stores s <> None ->
+       exec_micro e me (MRmwPost a k so fo) = MOk e' ->
+       exists (s' : atomic_state) (idx : nat),
+         get_atomic e' a = Some s' /\
+         bstep (s, clocks e) me (BRmwR (t_rel t0) idx (rmw_fun k) so fo) = Some (s', clocks e').
+Proof. exact MRmwPost_is_step. Qed.
+Print Assumptions C03_MRmwPost_is_step.
+
+(* unsync_load is the machine's unsync step: ticks the clock, touches no store clock *)
+Theorem C03_MUnsyncLoad_is_step :
+  forall (e : exec) (me a : nat) (e' : exec) (t0 : thread) (s : atomic_state),
+       get_thread e me = Some t0 ->
+       get_atomic e a = Some s ->
+       exec_micro e me (MUnsyncLoad a) = MOk e' ->
+       exists s' : atomic_state,
+         get_atomic e' a = Some s' /\ bstep (s, clocks e) me BUnsyncLoad = Some (s', clocks e').
+Proof. exact MUnsyncLoad_is_step. Qed.
+Print Assumptions C03_MUnsyncLoad_is_step.
+
+(* with_mut likewise *)
+Theorem C03_MWithMut_is_step :
+  forall (e : exec) (me a : nat) (v : N) (e' : exec) (t0 : thread) (s : atomic_state),
+       get_thread e me = Some t0 ->
+       get_atomic e a = Some s ->
+       exec_micro e me (MWithMut a v) = MOk e' ->
+       exists s' : atomic_state,
+         get_atomic e' a = Some s' /\ bstep (s, clocks e) me (BWithMut v) = Some (s', clocks e').
+Proof. exact MWithMut_is_step. Qed.
+Print Assumptions C03_MWithMut_is_step.
+
+(* the invariant survives unsync_load *)
+Theorem C03_unsync_load_out :
+  forall (own rk : nat -> nat) (s : atomic_state) (cs : list vv) (t : nat) 
+         (s' : atomic_state) (cs' : list vv),
+       GoodO own rk s cs ->
+       StampO s cs -> unsync_load_step (s, cs) t = Some (s', cs') -> StepOut own s cs s' cs'.
+Proof. exact unsync_load_out. Qed.
+Print Assumptions C03_unsync_load_out.
+
+(* and with_mut *)
+Theorem C03_with_mut_out :
+  forall (own rk : nat -> nat) (s : atomic_state) (cs : list vv) (t : nat) 
+         (v : N) (s' : atomic_state) (cs' : list vv),
+       GoodO own rk s cs ->
+       StampO s cs -> with_mut_step (s, cs) t v = Some (s', cs') -> StepOut own s cs s' cs'.
+Proof. exact with_mut_out. Qed.
+Print Assumptions C03_with_mut_out.
+
+(* every step kind of the generalised machine (model steps, stores/RMWs with any released clock below the thread's clock, unsync accesses, admissible growth): invariant kept, stamps kept, mo only extended, clocks only grow *)
+Theorem C03_bstep_out :
+  forall (own rk : nat -> nat) (s : atomic_state) (cs : list vv) (t : nat) 
+         (b : bop) (s' : atomic_state) (cs' : list vv),
+       GoodO own rk s cs ->
+       StampO s cs -> bstep (s, cs) t b = Some (s', cs') -> StepOut own s cs s' cs'.
+Proof. exact bstep_out. Qed.
+Print Assumptions C03_bstep_out.
 
